@@ -32,7 +32,7 @@ type c12exc struct {
 	noBreaker bool    // runs outside the breaker
 	nodeParam bool    // node is supplied by the caller
 	consts    []int64 // constant command arguments, in order
-	swallow   string  // "nil": redis.Nil becomes (zero value, nil); "all": every error becomes false
+	swallow   string  // "nil": redis.Nil becomes (zero value, nil); "caller": the wrapper has no error result (any error reads as false) – the breaker still gets the error
 	earlyNil  bool    // returns nil before the command when the last parameter (size) is ≤ 0
 	product   string  // leaf that is the product of two consecutive parameters
 	loopBuilt bool    // a variadic argument is built element-wise in a loop over a parameter
@@ -56,11 +56,12 @@ var c12exceptions = map[string]c12exc{
 	"BLPopCtx":            {delegate: "BLPopWithTimeoutCtx", consts: []int64{5_000_000_000}, why: "default blocking timeout blockingQueryTimeout = 5 s"},
 	"BLPopExCtx":          {callee: "BLPop", noBreaker: true, nodeParam: true, consts: []int64{5_000_000_000}, elem1: true, why: "blocking pop on a caller-supplied dedicated connection, documented as outside the breaker"},
 	"BLPopWithTimeoutCtx": {callee: "BLPop", noBreaker: true, nodeParam: true, elem1: true, why: "blocking pop on a caller-supplied dedicated connection, documented as outside the breaker"},
-	"ScriptLoadCtx":       {noBreaker: true, why: "as upstream: SCRIPT LOAD is not run under the breaker"},
-	"PingCtx":             {swallow: "all", why: "liveness probe: any error means false"},
-	"GetCtx":              {swallow: "nil", why: "documented: an absent key reads as \"\" without error"},
-	"GetSetCtx":           {swallow: "nil", why: "documented: no previous value reads as \"\" without error"},
-	"HMSetCtx":            {why: "map[string]string copied entry by entry to map[string]any (checked as a map-copy shape)"},
+	// ScriptLoadCtx was tabled as running outside the breaker ("as upstream") until round 9: it uses the shared
+	// client of getRedis like every other command, so its failures have to count and an open breaker has to stop it.
+	"PingCtx":   {swallow: "caller", why: "liveness probe: the caller is shown false for any error; the closure still returns the error to the breaker"},
+	"GetCtx":    {swallow: "nil", why: "documented: an absent key reads as \"\" without error"},
+	"GetSetCtx": {swallow: "nil", why: "documented: no previous value reads as \"\" without error"},
+	"HMSetCtx":  {why: "map[string]string copied entry by entry to map[string]any (checked as a map-copy shape)"},
 }
 
 // kv.Store methods that forward to a sibling kv.Store method (which routes) instead of routing themselves.
@@ -205,7 +206,7 @@ func (x *c12wrap) cmdResults() (errVals map[ssa.Value]bool, res func(ssa.Value) 
 func c12(r *core.Run) {
 	p := r.P
 	defer c12Extra(r)
-	r.Explanation = "Decides, for every method of redis.Redis and kv.kvStore on the current source: each context-free method forwards to its …Ctx twin with an empty context, its own parameters in order, and returns that call's results; each XxxCtx wrapper issues exactly one go-redis command of its own name (modulo a reasoned exception table), on the node obtained from getRedis(receiver), with its ctx first, inside r.brk.DoWithAcceptable(…, acceptable) whose error it returns; wrapper parameters reach the command's argument positions (option-struct fields and variadic elements flattened in declaration/index order) in declaration order, each exactly through the conversion its types dictate (identity, FormatInt base 10, seconds·time.Second, time.Unix(s,0)), with no parameter dropped and no constant argument outside the table; the closure hands the command's error to the breaker and returns nil only when it is nil (redis.Nil swallowed exactly in GetCtx/GetSetCtx); replies reach the caller through the conversion their types dictate; acceptable is exactly {nil, redis.Nil, context.Canceled}; every single-key kv.Store method routes by the parameter it forwards as the Redis method's key, forwards to the same-named Redis method with parameters in order and returns its results; DelCtx visits every key and deletes each on the node it hashes to."
+	r.Explanation = "Decides, for every method of redis.Redis and kv.kvStore on the current source: each context-free method forwards to its …Ctx twin with an empty context, its own parameters in order, and returns that call's results; each XxxCtx wrapper issues exactly one go-redis command of its own name (modulo a reasoned exception table), on the node obtained from getRedis(receiver), with its ctx first, inside r.brk.DoWithAcceptable(…, acceptable) whose error it returns; wrapper parameters reach the command's argument positions (option-struct fields and variadic elements flattened in declaration/index order) in declaration order, each exactly through the conversion its types dictate (identity, FormatInt base 10, seconds·time.Second, time.Unix(s,0)), with no parameter dropped and no constant argument outside the table; the closure hands the command's error to the breaker and returns nil only when it is nil (redis.Nil swallowed exactly in GetCtx/GetSetCtx; PingCtx, which shows its caller only a bool, included); replies reach the caller through the conversion their types dictate (a Duration reply in whole seconds by evaluation on sample replies: non-negative replies divided by time.Second, go-redis' negative sentinels passed through); acceptable is exactly {nil, redis.Nil, context.Canceled}; every single-key kv.Store method routes by the parameter it forwards as the Redis method's key, forwards to the same-named Redis method with parameters in order and returns its results; DelCtx visits every key and deletes each on the node it hashes to."
 	r.NotDecided = "equality of effect on a server and per reachable server state; go-redis itself; the element-wise conversions inside toPairs/toStrings; which parameter go-redis treats as the key (its signatures are trusted to mirror the wrapper's order)."
 	r.Trusted = append(r.Trusted, "go-redis v8 Cmdable signatures mirror the wrapper signatures position by position")
 
@@ -336,7 +337,7 @@ func c12(r *core.Run) {
 	})
 
 	// ---- D2: breaker, node, ctx ----
-	r.Check("D2/K2/breaker-node-ctx", "every wrapper (except the tabled BLPopEx/BLPopWithTimeout/ScriptLoad) runs its command inside the closure given to r.brk.DoWithAcceptable(…, acceptable) on its own receiver's breaker and returns that call's error; the node is result #0 of getRedis(receiver) (a caller-supplied node only for the BLPop family); the wrapper's ctx is the command's first argument", func(o *core.O) {
+	r.Check("D2/K2/breaker-node-ctx", "every wrapper (except the tabled BLPopEx/BLPopWithTimeout, which run on a caller-supplied dedicated connection) runs its command inside the closure given to r.brk.DoWithAcceptable(…, acceptable) on its own receiver's breaker and returns that call's error (PingCtx, which has no error result, excepted); the node is result #0 of getRedis(receiver) (a caller-supplied node only for the BLPop family); the wrapper's ctx is the command's first argument", func(o *core.O) {
 		for _, x := range wraps {
 			if x.exc.delegate != "" && len(x.deleg) == 1 {
 				// tabled delegation: own receiver, own ctx, results handed back unchanged
@@ -392,6 +393,10 @@ func c12(r *core.Run) {
 				}
 			}
 			if x.exc.noBreaker {
+				if !x.exc.nodeParam {
+					// the only reason for leaving the breaker out is a connection that is not the address's shared one
+					o.Fail(where, "%s is tabled as running outside the breaker but uses the shared client of getRedis: its failures never reach the breaker of the address and an open breaker does not stop it", x.name)
+				}
 				if brk != nil {
 					o.Fail(where, "%s is tabled as running outside the breaker (%s) but runs under it: update the table", x.name, x.exc.why)
 				}
@@ -409,7 +414,11 @@ func c12(r *core.Run) {
 			if f, ok := core.Strip(brk.Call.Args[1]).(*ssa.Function); !ok || f.Pkg == nil || f.Pkg.Pkg.Path() != core.Mod+"/"+c12redisPkg || f.Name() != "acceptable" {
 				o.Fail(p.InstrPos(brk), "%s: the acceptable predicate is %s, not redis.acceptable (redis.Nil / cancellation could trip the breaker, or real failures never would)", x.name, core.Describe(brk.Call.Args[1]))
 			}
-			if x.exc.swallow == "all" {
+			if res := x.fn.Signature.Results(); x.exc.swallow == "caller" {
+				// tabled: the wrapper has no error result to hand the breaker's error to
+				if res.Len() > 0 && res.At(res.Len()-1).Type().String() == "error" {
+					o.Fail(where, "%s is tabled as having no error result (%s) but has one: update the table", x.name, x.exc.why)
+				}
 				continue
 			}
 			// the wrapper returns the breaker's error as its last result
@@ -574,7 +583,7 @@ func c12(r *core.Run) {
 		s, isS := core.ConstString(c)
 		return isS && s == "redis: nil" && strings.HasPrefix(c.Type().String(), c12goRedis)
 	}
-	r.Check("D4/K2/error-and-nil", "after the command, the closure returns nil only on an edge establishing the command's error == nil and otherwise returns that very error (so the breaker and the caller see it); redis.Nil is turned into nil exactly in GetCtx and GetSetCtx, which must do so; no path skips the command except the getRedis failure (and size ≤ 0 in the two paging wrappers)", func(o *core.O) {
+	r.Check("D4/K2/error-and-nil", "after the command, the closure returns nil only on an edge establishing the command's error == nil and otherwise returns that very error (so the breaker and the caller see it) – in every wrapper, PingCtx included: what the caller is not shown the breaker still has to see, or a failed command is booked as a success of the address; redis.Nil is turned into nil exactly in GetCtx and GetSetCtx, which must do so; no path skips the command except the getRedis failure, which returns getRedis' error (and size ≤ 0 in the two paging wrappers)", func(o *core.O) {
 		for _, x := range wraps {
 			cmd := x.cmd()
 			if cmd == nil {
@@ -604,10 +613,6 @@ func c12(r *core.Run) {
 				_, ok := in.(*ssa.Return)
 				return ok && !isNilRet(in)
 			}
-			if x.exc.swallow == "all" {
-				// liveness probe: the value is checked by the result-conversion rule
-				continue
-			}
 			holdsNil, _ := core.EdgesOf(f, errNil)
 			holdsRNil, _ := core.EdgesOf(f, errIsNil)
 			cut := holdsNil
@@ -623,15 +628,49 @@ func c12(r *core.Run) {
 					o.Fail(p.InstrPos(wv), "%s swallows redis.Nil, which only GetCtx and GetSetCtx are documented to do: an absent key is reported as success", x.name)
 				}
 			}
-			if wv, found := core.Reach(core.Q{From: []core.At{core.After(cmd)}, Target: isNilRet, Cut: core.CutSet(cut)}); found {
-				o.Fail(p.InstrPos(wv), "%s: nil is returned after the command on a path where its error may be non-nil: the failure is hidden from the breaker and from the caller", x.name)
+			// what a return hands to the breaker: the value itself, or – when the value is a φ of the return's
+			// own block (one shared `return err`, an inlined helper's result) – each incoming value with its edge
+			type retItem struct {
+				ret  *ssa.Return
+				leaf ssa.Value
+				edge *core.Edge
 			}
+			var items []retItem
 			for _, ret := range core.Returns(f) {
-				if _, after := core.Reach(core.Q{From: []core.At{core.After(cmd)}, Target: core.Is(ret)}); !after {
+				lv := last(ret)
+				if ph, isPhi := lv.(*ssa.Phi); !isPhi || ph.Block() != ret.Block() {
+					items = append(items, retItem{ret, lv, nil})
 					continue
 				}
-				if lv := last(ret); lv == nil || (!core.IsNil(lv) && !errVals[lv] && !c12freshError(lv)) {
-					o.Fail(p.InstrPos(ret), "%s: the error returned after the command is %s, not the command's own error", x.name, core.Describe(lv))
+				gxLeavesWithEdges(lv, func(leaf ssa.Value, e *core.Edge) {
+					items = append(items, retItem{ret, x.w.capturedLoad(core.Forward(leaf)), e})
+				})
+			}
+			// can the item be what is returned on a path that ran the command and uses no edge of cutE?
+			afterCmd := func(it retItem, cutE []core.Edge) bool {
+				cs := core.CutSet(cutE)
+				if it.edge == nil {
+					_, ok := core.Reach(core.Q{From: []core.At{core.After(cmd)}, Target: core.Is(it.ret), Cut: cs})
+					return ok
+				}
+				if cs(*it.edge) {
+					return false
+				}
+				_, ok := core.Reach(core.Q{From: []core.At{core.After(cmd)}, Target: core.Is(gxLast(it.edge.From)), Cut: cs})
+				return ok
+			}
+			for _, it := range items {
+				if it.leaf != nil && core.IsNil(it.leaf) && afterCmd(it, cut) {
+					o.Fail(p.InstrPos(it.ret), "%s: nil is returned after the command on a path where its error may be non-nil: the failure is hidden from the breaker and from the caller", x.name)
+					break
+				}
+			}
+			for _, it := range items {
+				if !afterCmd(it, nil) {
+					continue
+				}
+				if lv := it.leaf; lv == nil || (!core.IsNil(lv) && !errVals[lv] && !c12freshError(lv)) {
+					o.Fail(p.InstrPos(it.ret), "%s: the error returned after the command is %s, not the command's own error", x.name, core.Describe(lv))
 				}
 			}
 			// no path around the command
@@ -642,16 +681,22 @@ func c12(r *core.Run) {
 				}
 				blocked := core.Or(core.Is(cmd), gerr)
 				var cutE []core.Edge
+				for _, it := range items {
+					// an edge that carries getRedis' error into the φ the return hands on is such a return
+					if it.edge != nil && it.leaf != nil && core.IsResult(it.leaf, 1, core.CallTo(c12redisPkg+".getRedis")) {
+						cutE = append(cutE, *it.edge)
+					}
+				}
 				if x.exc.earlyNil {
 					sz := len(x.fn.Params) - 1
 					h, _ := core.EdgesOf(f, core.Cmp(token.LEQ, func(v ssa.Value) bool { return x.w.paramIndex(v) == sz }, core.IsConstInt(0)))
-					cutE = h
+					cutE = append(cutE, h...)
 					if len(h) == 0 {
 						o.Fail(p.Pos(f.Pos()), "%s is tabled with an early return for size ≤ 0 but has no such test: update the table", x.name)
 					}
 				}
 				if wv, found := core.Reach(core.Q{From: []core.At{core.Entry(f)}, Target: core.IsReturn, Blocked: blocked, Cut: core.CutSet(cutE)}); found {
-					o.Fail(p.InstrPos(wv), "%s: a return is reachable without issuing the command and without a getRedis failure", x.name)
+					o.Fail(p.InstrPos(wv), "%s: a return is reachable that neither follows the command nor hands on the error of a failed getRedis (answering nil there books a call that never reached the server as a success of the address)", x.name)
 				}
 				// the command closure applied by another closure (a higher-order helper inlined): that closure
 				// applies it on every path but the getRedis failure and returns what it returned
@@ -680,7 +725,7 @@ func c12(r *core.Run) {
 	})
 
 	// ---- D4: result conversion ----
-	r.Check("D4/K6/result-conversion", "the command's reply reaches the wrapper's results in order through exactly the conversion the types dictate: identity / numeric conversion, int64→bool as ==1 or >=1 (>=1 required when a variadic member list is forwarded), []any→[]string via toStrings, []red.Z→[]Pair via toPairs, Duration→int seconds via /time.Second, Ping via ==\"PONG\", BLPop via element [1]", func(o *core.O) {
+	r.Check("D4/K6/result-conversion", "the command's reply reaches the wrapper's results in order through exactly the conversion the types dictate: identity / numeric conversion, int64→bool as ==1 or >=1 (>=1 required when a variadic member list is forwarded), []any→[]string via toStrings, []red.Z→[]Pair via toPairs, Duration→int seconds by evaluation on sample replies (a non-negative reply divided by time.Second, go-redis' negative sentinels -1ns = no expiry / -2ns = no such key passed through unchanged), Ping via ==\"PONG\", BLPop via element [1]", func(o *core.O) {
 		for _, x := range wraps {
 			cmd := x.cmd()
 			if cmd == nil {
@@ -716,8 +761,9 @@ func c12(r *core.Run) {
 					}
 				case c12isBool(dst) && c12isString(src):
 					allowed = []string{`("PONG"==` + rv + ")"}
-				case src.String() == "time.Duration" && c12isInteger(dst):
-					allowed = []string{"(" + rv + "/1000000000)"}
+				case c12isSecondsReply(src, dst):
+					// decided once per result by evaluation (c12replySeconds), not per assignment
+					return
 				case strings.HasSuffix(dst.String(), "[]string") && src.String() == "[]interface{}":
 					allowed = []string{c12redisPkg + ".toStrings(" + rv + ")"}
 				case strings.HasSuffix(dst.String(), "redis.Pair") && strings.HasSuffix(src.String(), "redis/v8.Z"):
@@ -743,6 +789,11 @@ func c12(r *core.Run) {
 							continue
 						}
 						check(p.InstrPos(ret), core.Result(ret, i), 0, ret.Results[i].Type())
+					}
+				}
+				for i, rs := 0, f.Signature.Results(); i < rs.Len()-1; i++ {
+					if src := c12resultType(cmd, 0); src != nil && c12isSecondsReply(src, rs.At(i).Type()) {
+						c12replySeconds(o, p, x, f, cmd, 0, i, nil)
 					}
 				}
 				continue
@@ -780,6 +831,11 @@ func c12(r *core.Run) {
 			for i := 0; i < nres-1; i++ {
 				if !filled[i] {
 					o.Fail(where, "%s: result #%d is never filled from the command's reply", x.name, i)
+				}
+			}
+			for cell, i := range resIdxOf {
+				if src := c12resultType(cmd, i); src != nil && c12isSecondsReply(src, x.fn.Signature.Results().At(i).Type()) {
+					c12replySeconds(o, p, x, f, cmd, i, i, cell)
 				}
 			}
 		}
@@ -1054,6 +1110,11 @@ func c12freshError(v ssa.Value) bool {
 		return ok && x.Op == token.MUL
 	}
 	return false
+}
+
+// c12isSecondsReply: a time.Duration reply handed to the caller as an integer number of seconds.
+func c12isSecondsReply(src, dst types.Type) bool {
+	return src.String() == "time.Duration" && dst.String() != "time.Duration" && c12isInteger(dst)
 }
 
 func c12orNil(t types.Type) types.Type {
